@@ -212,6 +212,26 @@ class Module:
         return f"<module {self.name}>"
 
 
+class UnmodelledName:
+    """A name imported from a library module the interpreter has no model for.  Importing it is harmless; *using* it is
+    outside the modelled subset (Unsupported = undecided), so that only the code that uses it is affected."""
+
+    def __init__(self, what):
+        self.what = what
+
+    def __repr__(self):
+        return f"<unmodelled {self.what}>"
+
+    def py_getattr(self, it, name):
+        raise Unsupported(f"{self.what}.{name} is not modelled by the interpreter")
+
+    def py_call(self, it, args, kwargs):
+        raise Unsupported(f"{self.what} is not modelled by the interpreter")
+
+    def py_truth(self, it):
+        return True
+
+
 class Coroutine:
     """An un-started call of an interpreted async function."""
 
